@@ -197,6 +197,7 @@ class DesignTop(Elaboratable):
     def elaborate(self, platform):
         m = TModule()
         self.m = m
+        self.subm = TModule()  # a second module: items with "mod": 1 are defined there (control paths of different modules)
         spec = self.spec
         # 1. create all Method objects up front (calls may precede definitions)
         mspecs = {}
@@ -221,10 +222,11 @@ class DesignTop(Elaboratable):
         self.mspecs = mspecs
         # 2. define items in order
         for it in spec["items"]:
+            mm = self.subm if it.get("mod") else m
             if it["k"] == "method":
-                self._def_method(m, it, None, ("true",))
+                self._def_method(mm, it, None, ("true",))
             elif it["k"] == "trans":
-                self._def_trans(m, it, None, ("true",))
+                self._def_trans(mm, it, None, ("true",))
             elif it["k"] == "alias":
                 src = self.methods[it["name"]]
                 dst = self.methods[it["of"]]
@@ -242,6 +244,7 @@ class DesignTop(Elaboratable):
                 a.schedule_before(b, ready_dependent=bool(rel[3]))
             elif rel[0] == "simultaneous":
                 a.simultaneous(b)
+        m.submodules.second_module = self.subm
         return m
 
     def _relobj(self, name):
